@@ -61,6 +61,73 @@ class Path:
     self.assumed.append(b)
 
 
+# ---- hard watchdog around in-process solver calls ---------------------------------------------------------
+# z3's `timeout` is cooperative; a call that overruns its budget by GRACE seconds (seen once: smt::theory_lra stuck in
+# lar_solver::explain_fixed_in_row for over an hour, under CPU load) cannot be interrupted from Python. The job then
+# records which call it was and exits; the scheduler (jobs.py) re-runs the job with that call answered `unknown`
+# (discharge: next solver stage / cvc5; feasibility: "feasible"; both sound for proving).
+import os as _os
+_TEST_HANG = _os.environ.get('PYVC_TEST_HANG')
+WATCHDOG = dict(cur=None, skip=set(), file=None, started=False, grace=15.0)
+
+
+def _solver_key(kind, solver):
+  try:
+    h = hash(tuple(a.hash() for a in solver.assertions()))
+  except Exception:   # pylint: disable=broad-exception-caught
+    h = 0
+  return f'{kind}:{h & 0xffffffffffff:x}'
+
+
+def _watchdog_loop():
+  import os, json
+  while True:
+    time.sleep(0.5)
+    cur = WATCHDOG['cur']
+    if cur is not None and time.time() > cur[1]:
+      try:
+        if WATCHDOG['file']:
+          with open(WATCHDOG['file'], 'w') as f:
+            json.dump(dict(key=cur[0], overrun_s=round(time.time() - cur[2], 1)), f)
+      finally:
+        os._exit(77)
+
+
+def start_watchdog(skip, file):
+  import threading
+  WATCHDOG['skip'], WATCHDOG['file'] = set(skip), file
+  if not WATCHDOG['started']:
+    WATCHDOG['started'] = True
+    threading.Thread(target=_watchdog_loop, daemon=True).start()
+
+
+def guarded_check(kind, solver, ms):
+  """solver.check() with budget ms; z3.unknown when this call was marked as one that hangs."""
+  key = _solver_key(kind, solver)
+  if key in WATCHDOG['skip']:
+    return z3.unknown
+  now = time.time()
+  WATCHDOG['cur'] = (key, now + ms / 1000.0 + WATCHDOG['grace'], now)
+  try:
+    if _TEST_HANG and key.startswith(_TEST_HANG) and key.endswith('7'):      # self-test of the watchdog: an uninterruptible call
+      time.sleep(10 ** 6)
+    return solver.check()
+  finally:
+    WATCHDOG['cur'] = None
+
+
+def guarded_call(kind, ident, ms, fn, default):
+  key = f'{kind}:{ident}'
+  if key in WATCHDOG['skip']:
+    return default
+  now = time.time()
+  WATCHDOG['cur'] = (key, now + ms / 1000.0 + WATCHDOG['grace'], now)
+  try:
+    return fn()
+  finally:
+    WATCHDOG['cur'] = None
+
+
 class Explorer:
   """Depth-first exploration of the decision tree by re-execution."""
 
@@ -83,7 +150,7 @@ class Explorer:
       s.add(c)
     s.add(extra)
     self.solver_calls += 1
-    r = s.check()
+    r = guarded_check('feasible', s, self.branch_timeout_ms)
     if r == z3.unsat:
       return False
     if len(qf) == len(pc):
@@ -94,7 +161,7 @@ class Explorer:
       s2.add(c)
     s2.add(extra)
     self.solver_calls += 1
-    return s2.check() != z3.unsat
+    return guarded_check('feasible-q', s2, 400) != z3.unsat
 
   def branch(self, cond):
     """Decide a symbolic condition on the current path; returns a Python bool."""
@@ -230,7 +297,7 @@ def discharge(obl, timeout_ms=20000, want_model=True):
     for c in hyps:
       s.add(c)
     s.add(z3.Not(goal))
-    return s, s.check()
+    return s, guarded_check(f'discharge-{ms}', s, ms)
 
   # stage 1: default solver, short budget (linear / easy goals finish in milliseconds)
   s, r = z3_default(min(3000, timeout_ms))
@@ -244,7 +311,7 @@ def discharge(obl, timeout_ms=20000, want_model=True):
           g.add(c)
       g.add(z3.Not(goal))
       t = z3.TryFor(z3.Then('simplify', 'propagate-values', 'purify-arith', 'qfnra-nlsat'), timeout_ms)
-      res = t(g)
+      res = guarded_call('nlsat', f'{hash(tuple(x.hash() for x in g)) & 0xffffffffffff:x}', timeout_ms, lambda: t(g), [])
       if len(res) == 1 and res[0].inconsistent():
         r = z3.unsat
         obl.backend = 'z3-nlsat'
